@@ -93,3 +93,99 @@ def xcheck(mlines, workdir, sample, rng):
         if kern.get(i) != ext.get(cid):
             bad.append((cid, kern.get(i), ext.get(cid)))
     return len(pick), bad
+
+
+# ---------------------------------------------------------------------------------------------
+# pure (E1) kinds: the model function is evaluated inside Coq on the case's input and must give what the extracted
+# driver printed for the same case (U8, MK, HF, FF, CC, MA)
+
+def _hdr(flags, opc, mask):
+    m = 'None' if mask == '-' else '(Some (%s))' % ','.join(str(x) for x in ws.unhx(mask))
+    return ('(mkHeader %s %s %s %s (match opcode_of_u8 %s with Some o => o | None => OData Continue end) %s)'
+            % tuple(['true' if c == '1' else 'false' for c in flags] + [opc, m]))
+
+def pure_term(line):
+    """-> Gallina term of type list N, or None if the kind is not covered"""
+    f = line.split(' ')
+    k = f[0]
+    if k == 'U8':
+        return 'match from_utf8 %s with UOk => [0] | UErr v None => [1; v] | UErr v (Some l) => [2; v; l] end' % gl(ws.unhx(f[2]))
+    if k == 'MK':
+        key = ','.join(str(x) for x in ws.unhx(f[4]))
+        return 'mask_fast32 %s (%s) %s' % (f[3], key, gl(ws.unhx(f[5])))
+    if k == 'HF':
+        return 'header_len %s %s :: header_format %s %s' % (_hdr(f[2], f[3], f[4]), f[5], _hdr(f[2], f[3], f[4]), f[5])
+    if k == 'FF' and len(f[5]) < 3000:
+        fr = '(mkFrame %s %s)' % (_hdr(f[2], f[3], f[4]), gl(ws.unhx(f[5])))
+        return 'frame_len %s :: frame_format %s' % (fr, fr)
+    if k == 'CC':
+        return '[close_to_u16 (close_of_u16 %s); if close_allowed (close_of_u16 %s) then 1 else 0]' % (f[2], f[2])
+    if k == 'MA' and all(len(x) < 3000 for x in f):
+        if f[2] == 'T': m = '(MText %s)' % gl(ws.unhx(f[3]))
+        elif f[2] == 'B': m = '(MBinary %s)' % gl(ws.unhx(f[3]))
+        elif f[2] == 'PI': m = '(MPing %s)' % gl(ws.unhx(f[3]))
+        elif f[2] == 'PO': m = '(MPong %s)' % gl(ws.unhx(f[3]))
+        elif f[2] == 'C': m = '(MClose %s)' % g_close(f[3], f[4])
+        elif f[2] == 'F': m = '(MFrame (mkFrame %s %s))' % (_hdr(f[3], f[4], f[5]), gl(ws.unhx(f[6])))
+        else: return None
+        return ('msg_len %s :: (if msg_is_empty %s then 1 else 0) :: match msg_into_text %s with Some t => 1 :: blen t :: t | None => [0] end ++ msg_display %s'
+                % (m, m, m, m))
+    return None
+
+def pure_expected(line, mtrace):
+    """the same list computed from the extracted driver's printed answer"""
+    f = line.split(' ')
+    k = f[0]
+    if k == 'U8':
+        if mtrace == 'ok': return [0]
+        p = mtrace.split(':')
+        return [1, int(p[1])] if p[2] == '-' else [2, int(p[1]), int(p[2])]
+    if k == 'MK':
+        return list(ws.unhx(mtrace))
+    if k == 'HF':
+        h, n = mtrace.split(':')
+        return [int(n)] + list(ws.unhx(h))
+    if k == 'FF':
+        p = mtrace.split(':')
+        return [int(p[1])] + list(ws.unhx(p[0]))
+    if k == 'CC':
+        p = mtrace.split(':')
+        return [int(p[1]), int(p[2])]
+    if k == 'MA':
+        p = mtrace.split(':')
+        t = [0] if p[4] == 'err' else [1, len(ws.unhx(p[4][3:]))] + list(ws.unhx(p[4][3:]))
+        return [int(p[1]), int(p[2])] + t + list(ws.unhx(p[6]))
+    return None
+
+def xcheck_pure(case_lines, model, workdir, sample, rng):
+    """returns (checked, disagreements[(id, kernel, extracted)])"""
+    cands = [c for c in case_lines if c.split(' ', 1)[0] in ('U8', 'MK', 'HF', 'FF', 'CC', 'MA') and len(c) < 8000
+             and not model.get(c.split(' ')[1], '').startswith(('driver-', 'unknown-kind', 'bad-case'))]
+    if not cands:
+        return 0, []
+    pick = rng.sample(cands, min(sample, len(cands)))
+    terms = [(c, pure_term(c)) for c in pick]
+    terms = [(c, t) for c, t in terms if t is not None]
+    if not terms:
+        return 0, []
+    os.makedirs(workdir, exist_ok=True)
+    vfile = os.path.join(workdir, 'xpure.v')
+    with open(vfile, 'w') as f:
+        f.write('From TungModel Require Import Base Coding Mask Header Frame Utf8 World Message MessageApi.\n')
+        for i, (c, t) in enumerate(terms):
+            f.write('Eval vm_compute in (%d :: 4294967295 :: (%s)).\n' % (i, t))
+    rc, out = build.sh('timeout 600 coqc -noglob -Q %s TungModel %s' % (build.COQ, vfile), cwd=workdir, timeout=700)
+    if rc != 0:
+        raise build.BuildError('kernel cross-check file (pure kinds) does not compile', out[-2000:])
+    kern = {}
+    for m in re.finditer(r'=\s*\[([^\]]*)\]', out.replace('\n', ' ')):
+        nums = [int(x) for x in m.group(1).replace(' ', '').split(';') if x]
+        if len(nums) >= 2 and nums[1] == 4294967295:
+            kern[nums[0]] = nums[2:]
+    bad = []
+    for i, (c, t) in enumerate(terms):
+        cid = c.split(' ')[1]
+        exp = pure_expected(c, model.get(cid, ''))
+        if kern.get(i) != exp:
+            bad.append((cid, str(kern.get(i))[:200], str(exp)[:200]))
+    return len(terms), bad
